@@ -540,7 +540,7 @@ func eofWitness(c *core.Ctx) {
 					emb = true
 				}
 			}
-			if emb {
+			if emb || embedsInterface(recvT) != nil {
 				continue
 			}
 		}
